@@ -38,12 +38,12 @@ type Node struct {
 
 // Params bounds generation.
 type Params struct {
-	MaxSegs   int   // number of segments (>=1)
-	MaxLen    int   // max chain length per segment
-	LongEvery int   // if >0, a segment may be "long": length up to LongLen
-	LongLen   int   // e.g. 600 to cross a 512 page
-	Kinds     int   // Kind drawn from [0,Kinds)
-	MaxPrevs  int   // max number of prevs of a merging segment
+	MaxSegs    int   // number of segments (>=1)
+	MaxLen     int   // max chain length per segment
+	LongEvery  int   // if >0, a segment may be "long": length up to LongLen
+	LongLen    int   // e.g. 600 to cross a 512 page
+	Kinds      int   // Kind drawn from [0,Kinds)
+	MaxPrevs   int   // max number of prevs of a merging segment
 	LenChoices []int // optional explicit pool of lengths
 }
 
